@@ -141,7 +141,13 @@ def ch_pure(ctx) -> Channel:
         lines.append(f"firstlast {lay.ts} {sd} {lay.sn} {E} {tsbd}")
         recs.append(("firstlast", lay, fl_impl, None, None))
         # listed entries
-        nodes = rep.generateSegmentTimeline()
+        try:
+            nodes = rep.generateSegmentTimeline()
+        except Exception as e:
+            # the manifest of this layout at this clock cannot be generated at all
+            ch.oracle_failures.append({"kind": "timeline-raises", "layout": lay.json(), "E_us": E, "depth": tsbd,
+                                       "what": f"generateSegmentTimeline raises {type(e).__name__}: {e}"})
+            continue
         exp = segpure.expand_nodes(nodes)
         reqs = []
         idx = {0, 1, len(exp) - 1, len(exp) - 2} | {rng.randrange(len(exp)) for _ in range(3)} if exp else set()
@@ -214,7 +220,7 @@ def e2e_cases(ctx, rng, count):
     names = live_templates()
     out = []
     for i in range(count):
-        stream = ["bbb", "tears", "syn1", "syn2", "syn3", "syn4", "syn5"][i % 7]
+        stream = ["bbb", "tears", "syn1", "syn2", "syn3", "syn4", "syn5", "syn6", "syn7"][i % 9]
         man = names[(i // 5) % len(names)]
         opts = {}
         for k, vals in OPTION_POOL:
@@ -235,6 +241,12 @@ def e2e_cases(ctx, rng, count):
             now = ast_ + datetime.timedelta(seconds=P // 1024) + datetime.timedelta(seconds=rng.choice([1, 3, 7, 12, 19]),
                                                                                    microseconds=rng.choice([0, 250000, 999999]))
             start = "pow2"
+        if stream == "syn6" and (i // 8) % 2 == 0:
+            # a young stream whose media files start at decode time 8 s: positions on the live timeline
+            # below the first stored decode time must still be served
+            ast_ = now.replace(microsecond=0) - datetime.timedelta(seconds=rng.choice([9, 12, 20, 31, 45, 70]))
+            start = "pow2"
+            opts.setdefault("depth", rng.choice(["30", "60", "120"]))
         if start == "pow2":
             opts["start"] = ast_.strftime("%Y-%m-%dT%H:%M:%SZ")
         elif start == "explicit":
